@@ -64,4 +64,20 @@ theorem getSmiles_stable (valid : List Char → Bool) (treeOnly full tfCtor : Bo
        | none => simp [getSmiles] at h <;> (try (obtain ⟨rfl, rfl⟩ := h; simp [getSmiles]))
        | some m => simp [getSmiles] at h; obtain ⟨rfl, rfl⟩ := h; simp [getSmiles])
 
+/-- `get_smiles` changes nothing the other methods look at on a `tree_only` object: options and the `tree_full` flag stay (the
+    tree itself is not replaced: the walk for the molecule is local), only the cache is filled. -/
+theorem getSmiles_keeps_tree (valid : List Char → Bool) (o o' : Obj) (tfLazy : Bool) (mergedLazy : Option (List Char))
+    (r : List Char) (h : getSmiles valid o tfLazy mergedLazy = some (r, o')) :
+    o'.treeOnly = o.treeOnly ∧ o'.full = o.full ∧ (o.treeOnly = true → o'.treeFull = o.treeFull) := by
+  unfold getSmiles at h
+  split at h
+  · simp at h; obtain ⟨_, rfl⟩ := h; simp
+  · cases hc : o.cached with
+    | some c => simp [hc] at h; obtain ⟨_, rfl⟩ := h; simp
+    | none =>
+      simp only [hc] at h
+      cases mergedLazy with
+      | none => simp at h
+      | some m => simp at h; obtain ⟨_, rfl⟩ := h; simp; intro ht; simp [ht]
+
 end Gly.Life
